@@ -271,6 +271,12 @@ def run(R):
                         ta_, tb_ = cl.locals.get(str(op_local(c["a"])), ""), cl.locals.get(str(op_local(c["b"])), "")
                         if c["op"] in ("Eq", "Ne") and "RecordType" in ta_ and "RecordType" in tb_:
                             typed = True
+                    if not typed:
+                        # the comparison may sit in a local predicate closure the retain closure calls
+                        from rules import closure_truth_table
+                        from props.C08 import _kt
+                        tt = closure_truth_table(cl, _kt)
+                        typed = tt is not None and "T" in tt[0]
                 if not typed:
                     okq = False
             if not okq:
